@@ -30,7 +30,7 @@ def seq_batches(w, tier, plan, name="seq"):
 def validate_many(chk, batches, module, cfg, on_dev, max_workers=6, dfs=False):
     def val(x):
         tr, args = x
-        return x, validate(module, cfg, tr, name=f"{chk.pid}_{os.path.basename(tr)}", dfs=dfs, heap="3g")
+        return x, validate_chunked(module, cfg, tr, name=f"{chk.pid}_{os.path.basename(tr)}", dfs=dfs, heap="3g")
     with ThreadPoolExecutor(max_workers=max_workers) as ex:
         results = list(ex.map(val, batches))
     for (tr, args), (res, r) in results:
